@@ -9,3 +9,4 @@ open Verif.Props.C08
 #print axioms decimal_value
 #print axioms decimal_grammar
 #print axioms decimal_shape
+#print axioms holds_sound
